@@ -23,7 +23,9 @@ impl<'a, F> Chain<'a, F> {
         while current_sector_id != consts::END_OF_CHAIN {
             sector_ids.push(current_sector_id);
             current_sector_id = allocator.next(current_sector_id)?;
-            if current_sector_id == first_sector_id {
+            if current_sector_id == first_sector_id
+                || sector_ids.len() > allocator.num_fat_entries()
+            {
                 invalid_data!(
                     "Chain contained duplicate sector id {}",
                     current_sector_id
